@@ -30,7 +30,7 @@ func run(c *hlib.Ctx) {
 	c.Rule("history = pool config + value alphabet + 2..12 operations from {load, delete, delete-where, compact(±vectors), vector add/del, " +
 		"vacuum of any commit, branch, merge, revert} (guarded against the known C14/C15 defects, which have their own checks); after every " +
 		"step every earlier commit is re-queried; reader cases = a started query pulled batch by batch while 1..4 writer operations commit")
-	w := map[string]int{"load": 26, "delete": 10, "delwhere": 8, "compact": 12, "addvec": 3, "delvec": 2, "vacuum": 7, "branch": 6, "merge": 10, "revert": 12, "badid": 2}
+	w := map[string]int{"load": 26, "delete": 10, "delwhere": 8, "compact": 12, "addvec": 3, "delvec": 2, "vacuum": 7, "branch": 6, "merge": 10, "revert": 12, "badid": 2, "manage": 4}
 	guarded := lakeh.Profile{Name: "c13", W: w, MaxOps: 12, Guarded: true, Plain: true, NoEmptyBranch: true}
 	if c.Want("histories") {
 		lakeh.RunPlan(c, lakeh.Plan{
